@@ -27,6 +27,8 @@ def rules(chk, db):
     encrules.write_rules(chk, db, want=('LEN', 'ELT', 'GRD'))
     chk.rule('NR.w', 'no run-time narrowing integral conversion in any WritePayload/Size (lengths stay in SizeType)', minimum=10)
     encrules.narrowing(chk, db, 'NR.w', {'WritePayload', 'Size', 'Write'})
+    chk.rule('CO', 'wrapper encoders are composed of exactly the documented component encodings', minimum=30)
+    encrules.composition(chk, db, 'CO', ('WritePayload', 'Prefix'))
 
 
 def run(chk, db):
